@@ -4,7 +4,7 @@
 # shadow harness crate (VERIF_REPO), prints the verdict lines, and resets the worktree.
 set -u
 PATCH=$(realpath "$1"); PROP=$2; TIER=${3:-quick}
-WT=/tmp/wt-seeded
+WT=${SEEDED_WT:-/tmp/wt-seeded}
 HEAD=$(git -C /repo rev-parse HEAD)
 if [ ! -d $WT ]; then git -C /repo worktree add -q --detach $WT $HEAD; fi
 git -C $WT reset -q --hard $HEAD; git -C $WT clean -qfd
